@@ -1494,3 +1494,30 @@ def gen_dyn_composite(src, attempt, match_template, tokenize):
             return "Definition dyn_%s_composite_holes : list (list N * list (list N)) :=\n  [%s]." % (tag, ';\n   '.join(rows))
         attempt(out, 'postcard-dyn:%s composite arms' % fname, go, 'dyn_%s_composite_holes' % tag)
     return '\n'.join(out) + '\n'
+
+
+# ----------------------------------------------------------------------------------------
+# GenFnTemplates.v: whole functions matched token for token (up to renaming of locals and parameters)
+# against tools/fn_templates.json
+def gen_fn_templates(src, attempt, match_template, tokenize, tags=None):
+    import json
+    import os
+    out = ["(* GENERATED by tools/translate.py from the Rust sources. Do not edit. *)",
+           "From PV Require Import Base.", "Open Scope N_scope.", "",
+           "(* functions whose bodies match, token for token up to renaming of locals, the code the hand",
+           "   model was written from *)"]
+    tpl = json.load(open(os.path.join(os.path.dirname(os.path.abspath(__file__)), 'fn_templates.json')))
+    for tag in sorted(tpl):
+        if tags is not None and tag not in tags:
+            continue
+
+        def go(tag=tag):
+            text = src(tpl[tag]['path'])
+            names = sorted(tpl[tag]['fns'])
+            for n in names:
+                sig, body = find_fn(text, n)
+                toks = [t[1] for t in tokenize(body)]
+                match_template(toks, tpl[tag]['fns'][n], '%s:%s' % (tpl[tag]['path'].split('/')[-1], n))
+            return "Definition %s_fns_matched : list (list N) := [%s]." % (tag, '; '.join(coq_str(n) for n in names))
+        attempt(out, '%s: function templates' % tpl[tag]['path'], go, '%s_fns_matched' % tag)
+    return '\n'.join(out) + '\n'
